@@ -1,6 +1,9 @@
 mod arrgen;
 mod c01;
 mod c02;
+mod c06;
+mod c07;
+mod tracegen;
 mod c17;
 mod probe;
 mod viewgen;
@@ -47,6 +50,8 @@ fn main() {
         "C01" | "C03" => c01::run(&mut ctx),
         "C02" | "C12" => c02::run(&mut ctx),
         "C17" => c17::run(&mut ctx),
+        "C06" => c06::run(&mut ctx),
+        "C07" => c07::run(&mut ctx),
         "C10" => c10::run(&mut ctx),
         "C11" => c11::run(&mut ctx),
         "C13" => c13::run(&mut ctx),
